@@ -98,6 +98,19 @@ package fzf
 //@ ensures (mg.merged.arr == old(mg.merged.arr) && mg.merged.off == old(mg.merged.off) && cap(mg.merged) == old(cap(mg.merged)) && len(mg.merged) >= old(len(mg.merged))) || fresh(mg.merged)
 //@ ensures mg.cursors == old(mg.cursors)
 
+// sliceChunks: the work is split into consecutive, non-empty views of the chunk list - in order, nothing left
+// out, nothing twice - so that concatenating the per-partition results in partition order is the list order.
+//@ func Matcher.sliceChunks
+//@ property C04
+//@ requires m != nil && m.partitions >= 1
+//@ ensures fresh(result) && (len(chunks) == 0 ==> len(result) == 0)
+//@ ensures len(chunks) > 0 ==> len(result) >= 1 && result[0].off == chunks.off && result[len(result)-1].off + len(result[len(result)-1]) == chunks.off + len(chunks)
+//@ ensures forall(k, 0, len(result), result[k].arr == chunks.arr && len(result[k]) >= 1)
+//@ ensures forall(k, 0, len(result) - 1, result[k].off + len(result[k]) == result[k+1].off)
+//@ loop 1
+//@   invariant 0 <= i && i <= partitions && len(slices) == partitions && fresh(slices) && perSlice >= 1 && partitions * perSlice <= len(chunks) && (len(chunks) > 0 ==> partitions >= 1)
+//@   invariant forall(k, 0, i, slices[k].arr == chunks.arr && slices[k].off == chunks.off + k * perSlice && len(slices[k]) == (k == partitions - 1 ? len(chunks) - k * perSlice : perSlice))
+
 //@ func PassMerger
 //@ property C04 C06
 //@ requires chunks != nil && validChunks(*chunks)
